@@ -20,7 +20,7 @@ ASSUMPTIONS = ['each diagnostic line carries a unique token (u<k> / x<k>) naming
                'over the same pattern, independently of pedal.source.sections']
 EXPLANATION = 'bounded-exhaustive files x operation sequences on the real tools; oracle = token/line bookkeeping + CPython'
 
-KINDS = ['clean', 'name', 'syntax', 'blank', 'marker', 'near', 'ff']
+KINDS = ['clean', 'name', 'syntax', 'blank', 'marker', 'near', 'ff', 'lib']
 DEFAULT_PAT = r'^(##### Part .+)$'
 CUSTOM_PAT = r'^(#%% .*\n)'
 PATS = [('default', DEFAULT_PAT, '##### Part %d'), ('custom', CUSTOM_PAT, '#%%%% %d')]
@@ -41,6 +41,8 @@ def mk(kinds, marker):
             lines.append(marker % i)
         elif k == 'near':
             lines.append("#### Part %d" % i)
+        elif k == 'lib':
+            lines.append("open('u%d.txt')" % i)
         elif k == 'ff':
             lines.append("f%d = 1 \x0c+ 1" % i)
     return "\n".join(lines) + "\n"
@@ -90,29 +92,9 @@ def one_pass(ctx, src, independent, pat, order, ending, case, tag, entry='separa
         ctx.fail({'symptom': 'file not split at the given pattern', 'entry': entry,
                   'pattern': 'default' if pat == DEFAULT_PAT else 'custom'}, case=case, sections=len(secs), markers=nsec)
         return
-    for k in range(0, nsec + 3):
-        n0 = len(MAIN_REPORT.feedback)
-        if k > 0:
-            ctx.step('next_section')
-            try:
-                sections.next_section()
-            except Exception as e:
-                ctx.fail({'symptom': 'next_section raised', 'exception': type(e).__name__,
-                          'past_end': k > nsec}, case=case, k=k, message=str(e)[:200])
-                break
-            if k > nsec:
-                if not any(f.label == 'not_enough_sections' for f in MAIN_REPORT.feedback[n0:]):
-                    ctx.fail({'symptom': 'no not_enough_sections feedback past the end'}, case=case, k=k)
-                continue
-        code = MAIN_REPORT.submission.main_code
-        a, b = sp[k]
-        expect = src[a:b] if (independent or k == 0) else src[:b]
-        if code != expect:
-            ctx.fail({'symptom': 'section text is not the k-th chunk', 'mode': 'independent' if independent else 'cumulative',
-                      'pass': tag, 'entry': entry, 'pattern': 'default' if pat == DEFAULT_PAT else 'custom'},
-                     case=case, k=k, got=code, want=expect)
-            break
-        offset = src[:a].count("\n") if independent else 0
+    def tools_and_lines(code, offset, k, n0, where):
+        """run verify/tifa/run in the given order on the current code and check every reported line"""
+        mode_name = 'independent' if independent else 'cumulative'
         ok = None
         for tool in order:
             ctx.step(tool)
@@ -139,11 +121,15 @@ def one_pass(ctx, src, independent, pat, order, ending, case, tag, entry='separa
                 except SyntaxError as e2:
                     exp = (e2.lineno or 1) + offset
                 if exp != ln:
-                    ctx.fail({'symptom': 'syntax error line is not the whole-file line', 'pass': tag,
+                    ctx.fail({'symptom': 'syntax error line is not the whole-file line', 'pass': tag, 'where': where,
                               'mode': 'independent' if independent else 'cumulative'}, case=case, k=k, got=ln, want=exp)
                 continue
             name = f.fields.get('name') if isinstance(f.fields, dict) else None
-            if f.label in ('initialization_problem', 'possible_initialization_problem', 'name_error', 'unused_variable'):
+            if f.category == 'runtime' and f.label != 'name_error':
+                m = re.search(r"'(u\d+)\.txt'", str(f.fields.get('exception', '')) + f.message)
+                name = m.group(1) if m else None
+            if f.label in ('initialization_problem', 'possible_initialization_problem', 'name_error', 'unused_variable') or \
+                    (f.category == 'runtime' and name):
                 if f.label == 'name_error':
                     m = re.search(r"name '([a-z]\d+)'", str(f.fields.get('exception', '')) + f.message)
                     name = m.group(1) if m else None
@@ -153,13 +139,41 @@ def one_pass(ctx, src, independent, pat, order, ending, case, tag, entry='separa
                 if ln != want:
                     ctx.fail({'symptom': 'reported line is not the whole-file line', 'label': f.label,
                               'category': f.category, 'mode': 'independent' if independent else 'cumulative',
-                              'pass': tag}, case=case, k=k, got=ln, want=want)
+                              'pass': tag, 'where': where}, case=case, k=k, got=ln, want=want)
                 if f.category == 'runtime':
                     for mline in re.findall(r"Line (\d+) of file", f.message):
                         if int(mline) != want:
-                            ctx.fail({'symptom': 'traceback line is not the whole-file line', 'pass': tag,
+                            ctx.fail({'symptom': 'traceback line is not the whole-file line', 'pass': tag, 'where': where,
                                       'mode': 'independent' if independent else 'cumulative'},
                                      case=case, k=k, got=int(mline), want=want)
+
+    for k in range(0, nsec + 3):
+        n0 = len(MAIN_REPORT.feedback)
+        if k > 0:
+            ctx.step('next_section')
+            try:
+                sections.next_section()
+            except Exception as e:
+                ctx.fail({'symptom': 'next_section raised', 'exception': type(e).__name__,
+                          'past_end': k > nsec}, case=case, k=k, message=str(e)[:200])
+                break
+            if k > nsec:
+                if not any(f.label == 'not_enough_sections' for f in MAIN_REPORT.feedback[n0:]):
+                    ctx.fail({'symptom': 'no not_enough_sections feedback past the end'}, case=case, k=k)
+                elif k == nsec + 1 and MAIN_REPORT.submission.main_code == src:
+                    # no section is active any more: tools now see the whole file and must number it as such
+                    tools_and_lines(src, 0, k, len(MAIN_REPORT.feedback), 'past the end')
+                continue
+        code = MAIN_REPORT.submission.main_code
+        a, b = sp[k]
+        expect = src[a:b] if (independent or k == 0) else src[:b]
+        if code != expect:
+            ctx.fail({'symptom': 'section text is not the k-th chunk', 'mode': 'independent' if independent else 'cumulative',
+                      'pass': tag, 'entry': entry, 'pattern': 'default' if pat == DEFAULT_PAT else 'custom'},
+                     case=case, k=k, got=code, want=expect)
+            break
+        offset = src[:a].count("\n") if independent else 0
+        tools_and_lines(code, offset, k, n0, 'section')
     ctx.step(ending)
     try:
         if ending == 'stop':
@@ -173,6 +187,8 @@ def one_pass(ctx, src, independent, pat, order, ending, case, tag, entry='separa
     if MAIN_REPORT.submission.main_code != src:
         ctx.fail({'symptom': 'main code not restored', 'ending': ending}, case=case,
                  got=MAIN_REPORT.submission.main_code)
+    elif ending == 'stop':
+        tools_and_lines(src, 0, -1, len(MAIN_REPORT.feedback), 'after stop_sections')
 
 
 def make_body(max_lines, orders, second):
